@@ -127,6 +127,7 @@ func runC05(c *Ctx) {
 
 	L.Note("packages analysed: %d (all of /repo), tables evaluated from align/const.go", len(c.P.Pkgs))
 	c.checkErrNotDropped("error-not-dropped", "align")
+	c.checkWriteBalance("write-balance")
 }
 
 func (c *Ctx) checkIupacTables() {
